@@ -167,10 +167,10 @@ def genDigits (fuel : Nat) (r s mp mm : Nat) (lowOk highOk : Bool) (acc : List N
       else ((d + 1) :: acc).reverse
     else if !tc2 then (d :: acc).reverse
     else
-      -- both candidates are in the rounding interval: take the closer one, ties to even
+      -- both candidates are in the rounding interval: take the closer one; on an exact tie Rust's
+      -- flt2dec rounds up (`mant * 2 >= scale`), e.g. …000.25 prints as …000.3
       if r * 2 < s then (d :: acc).reverse
-      else if r * 2 > s then ((d + 1) :: acc).reverse
-      else if d % 2 == 0 then (d :: acc).reverse else ((d + 1) :: acc).reverse
+      else ((d + 1) :: acc).reverse
 
 /-- scale so that the first generated digit is the leading one; returns (k, digits) with
 value = 0.d₁d₂… × 10^k -/
